@@ -1,6 +1,8 @@
 """C15 - optimised (SIMD, run-time dispatched) kernels match the portable C code (modules ArchTwins, ArchTrace)."""
-import json, os, random, re, shutil
+import json, os, random, re, shutil, threading
 import vf
+
+LOCK = threading.RLock()
 
 LEVEL = "model_checking"
 
@@ -77,3 +79,505 @@ def build_arch(var):
         objs.append(o)
     exe = vf.build_hx(var, ["arch.c"] + objs, out="arch", extra=extra)
     return exe, dict(simd=sorted(simd), unknown_simd=sorted(simd - KNOWN_SIMD), tables=sorted(tabs), unknown_tables=sorted(tabs - KNOWN_TABLES))
+
+
+# ---------------------------------------------------------------------------------------------------------------
+PROVISIONAL = []          # proposed known-finding entries (none on the pinned tree)
+
+
+def known_entries():
+    return vf.known_findings("C15") + PROVISIONAL
+
+
+def match_known(ev):
+    """a known-finding key names fields of the rejected event (equality)"""
+    for en in known_entries():
+        key = en.get("key", {})
+        if key and all(ev.get(k) == v for k, v in key.items() if k != "site"):
+            return en
+    return None
+
+
+def tables_of(ctx, exe, tag):
+    out = ctx.path("tables_%s.ndjson" % tag)
+    rc, err = vf.run_hx(exe, ["tables"], out, timeout=120)
+    if rc != 0 or vf.count_lines(out) == 0:
+        raise vf.Infra("hx_arch tables failed (%s): %s" % (tag, err[-500:]))
+    return out
+
+
+def gen_histories(ctx, cfg):
+    """histories (settings x run tokens) enumerated by TLC from ArchTwins_mc with Track = FALSE"""
+    r = vf.tlc("ArchTwins_mc", cfg, workers=4, timeout=900, env={"TABLES": ctx.tab["hkfixo"]}, heap="6g")
+    if r.error:
+        raise vf.Infra("ArchTwins gen: " + r.error)
+    ctx.add_tlc(r, "gen ArchTwins_mc/" + cfg)
+    hs = []
+    for p in r.prints:
+        if not p.startswith('<<"HIST"'):
+            continue
+        nums = re.findall(r"-?\d+", p.split('", "')[1])
+        toks = re.findall(r'\\"([olfs])\\"', p.split('", "')[2])
+        if len(nums) == 7 and toks:
+            hs.append((tuple(int(x) for x in nums), tuple(toks)))
+    if not hs:
+        raise vf.Infra("ArchTwins gen emitted no history")
+    return hs
+
+
+def sample_histories(hs, n, rng):
+    """stratified by (application, Fs, complexity, FEC): the same number from every class, in a seeded order"""
+    groups = {}
+    for h in hs:
+        s = h[0]
+        groups.setdefault((s[0], s[1], s[3], s[5]), []).append(h)
+    keys = sorted(groups)
+    for k in keys:
+        rng.shuffle(groups[k])
+    out, i = [], 0
+    while len(out) < n and any(groups[k] for k in keys):
+        for k in keys:
+            if groups[k] and len(out) < n:
+                out.append(groups[k].pop())
+        i += 1
+    rng.shuffle(out)
+    return out
+
+
+BITRATES = [8000, 12000, 16000, 24000, 32000, 64000, 96000, 128000]
+
+
+def history_line(i, h, rng):
+    (app, fs, ch, cx, br, fec, dq), toks = h
+    br2 = rng.choice([b for b in BITRATES if b != br])
+    vbr = rng.choice([0, 1, 1, 2])
+    run = max(2, min(40, int(round(200.0 / dq))))          # runs of about 100 ms
+    if rng.random() < 0.3:
+        run = max(2, run // 2)
+    return "H %d %d %d %d %d %d %d %d %d %d %d %d | %s" % (i, app, fs, ch, cx, br, br2, fec, dq, vbr, run, rng.randrange(1, 1 << 30), " ".join(toks))
+
+
+# hand-written histories: long streams, several switches, loss bursts, every duration with SILK-only / hybrid / CELT-only rates
+def directed_lines(start):
+    out = []
+    i = start
+    for (app, fs, ch, cx, br, br2, fec, dq, vbr, run, toks) in [
+            (2048, 16000, 1, 0, 16000, 24000, 1, 40, 1, 10, "o l o f o s o l l o"),
+            (2048, 16000, 1, 1, 20000, 12000, 0, 40, 1, 10, "o o l o s o"),
+            (2048, 8000, 1, 2, 12000, 6000, 1, 120, 1, 4, "o f o l o s o f"),
+            (2048, 12000, 2, 10, 24000, 40000, 1, 80, 0, 5, "o l o f s o o"),
+            (2048, 48000, 2, 10, 32000, 96000, 1, 40, 1, 10, "o s o l o s o f o"),
+            (2048, 48000, 1, 8, 24000, 64000, 0, 20, 2, 20, "o l s o f o"),
+            (2049, 48000, 2, 10, 128000, 24000, 0, 40, 1, 10, "o l o s o l o s o"),
+            (2049, 48000, 2, 5, 64000, 16000, 0, 5, 1, 40, "o l o s o"),
+            (2049, 24000, 1, 9, 48000, 12000, 1, 10, 0, 20, "o f o s o l"),
+            (2051, 48000, 2, 10, 96000, 32000, 0, 20, 1, 20, "o l l o s o"),
+            (2051, 48000, 1, 0, 64000, 510000, 0, 120, 1, 4, "o l o s o l"),
+            (2049, 48000, 2, 10, 510000, 6000, 0, 40, 0, 8, "o s o l o"),
+            (2048, 24000, 2, 6, 18000, 30000, 1, 120, 2, 4, "o f s o f o l o"),
+            (2048, 16000, 2, 3, 14000, 36000, 1, 40, 1, 12, "o s o s o s o l f o")]:
+        out.append("H %d %d %d %d %d %d %d %d %d %d %d %d | %s" % (i, app, fs, ch, cx, br, br2, fec, dq, vbr, run, 1000 + i, toks))
+        i += 1
+    return out
+
+
+class Job:
+    def __init__(self, variant, exe, kind, name, args=None, lines=None):
+        self.variant, self.exe, self.kind, self.name, self.args, self.lines = variant, exe, kind, name, args or [], lines
+        self.rc, self.err, self.out, self.kout, self.inp = None, "", None, None, None
+
+
+def run_job(ctx, j):
+    j.out = ctx.path("%s_%s.ndjson" % (j.variant, j.name))
+    j.kout = ctx.path("%s_%s_k.ndjson" % (j.variant, j.name))
+    if j.kind == "twins":
+        j.inp = ctx.path("%s_%s.txt" % (j.variant, j.name))
+        with open(j.inp, "w") as f:
+            f.write("\n".join(j.lines) + "\n")
+        j.rc, j.err = vf.run_hx(j.exe, ["twins", j.kout], j.out, stdin_path=j.inp, timeout=3000)
+    else:
+        j.rc, j.err = vf.run_hx(j.exe, ["kern"] + j.args + [j.kout], j.out, timeout=3000)
+    return j
+
+
+def replay_text_of(j, ev_line=None, hist_id=None):
+    if j.kind == "kern":
+        return "K %s %s\n" % (j.variant, " ".join(str(a) for a in j.args))
+    ln = [x for x in j.lines if hist_id is None or x.split()[1] == str(hist_id)]
+    return "V %s\n%s\n" % (j.variant, "\n".join(ln if ln else j.lines))
+
+
+def judge_file(ctx, j, path, what):
+    """TLC judges one event file; returns (accepted, rejected line number, event dict or None)"""
+    n = vf.count_lines(path)
+    if n == 0:
+        return True, None, None
+    acc, rej, r = vf.validate_seq(ctx, "ArchTrace", "ArchTrace.cfg", path, what, heap="3g")
+    if acc and r.distinct != n + 1:
+        raise vf.Infra("%s: TLC walked %d states for %d events" % (what, r.distinct, n))
+    ev = None
+    if not acc and rej and rej > 0:
+        try:
+            ev = json.loads(vf.file_line(path, rej))
+        except ValueError:
+            ev = None
+    return acc, rej, ev
+
+
+def drop_line(path, n):
+    """remove line n (a tolerated known finding) so that the rest of the file can be judged"""
+    with open(path) as f:
+        lines = f.readlines()
+    del lines[n - 1]
+    with open(path, "w") as f:
+        f.writelines(lines)
+
+
+def hist_of(path, lineno):
+    hid = None
+    with open(path) as f:
+        for i, ln in enumerate(f, 1):
+            if ln.startswith('{"k":"new"'):
+                hid = json.loads(ln)["id"]
+            if i >= lineno:
+                break
+    return hid
+
+
+def scan(ctx, j):
+    """measured evidence: events, histories, distinct non-trivial cases, calibration figures"""
+    nh = 0
+    for path in (j.out, j.kout):
+        if not path or not os.path.exists(path):
+            continue
+        cur = None
+        with open(path) as f:
+            for ln in f:
+                ctx.evaluations += 1
+                try:
+                    e = json.loads(ln)
+                except ValueError:
+                    continue
+                k = e.get("k")
+                if k == "new":
+                    cur = e
+                    nh += 1
+                    if e["top"] >= 3:
+                        ctx.nontrivial.add(hash(("h", j.variant, ln)))
+                elif k == "kc":
+                    ctx.nontrivial.add(hash(("k", e["impl"], e["fx"], e["mode"], tuple(e["shape"]))))
+                    o = OBS["kernels"].setdefault("%s/%s" % (e["impl"], "fix" if e["fx"] else "flt"), dict(cases=0, worst_r_over_bound_permille=0))
+                    o["cases"] += 1
+                    if e.get("cls") == "flt":
+                        b = (2 * e["n"] + 4) * (8 if e["kern"] == "comb_filter_const_inplace" else 1)
+                        o["worst_r_over_bound_permille"] = max(o["worst_r_over_bound_permille"], int(1000 * e["r"] / b))
+                    elif e.get("cls") == "pvq" and not e["deg"]:
+                        o["worst_r_over_bound_permille"] = max(o["worst_r_over_bound_permille"], int(1000 * max(0, e["qc"] - e["qs"]) / 100000))
+                        OBS["pvq_worst_quality_loss_ppm"] = max(OBS["pvq_worst_quality_loss_ppm"], e["qc"] - e["qs"])
+                        OBS["pvq_cases"] += 1
+                        OBS["pvq_vectors_differ"] += 0 if e["same"] else 1
+                elif k == "is":
+                    s = OBS["insitu"].setdefault("%s/%s/%s" % (e["impl"], "fix" if e["fx"] else "flt", e["mode"]), dict(compared=0, differ=0))
+                    s["compared"] += e["cmp"]
+                    s["differ"] += e["neq"]
+                elif k == "dec":
+                    if cur is not None and cur["fx"] == 0:
+                        if e["clean"]:
+                            OBS["float_pcm_max_diff_clean_16bit_units"] = max(OBS["float_pcm_max_diff_clean_16bit_units"], e["mx"])
+                        else:
+                            OBS["float_pcm_max_diff_lossy_16bit_units"] = max(OBS["float_pcm_max_diff_lossy_16bit_units"], e["mx"])
+                elif k == "reach":
+                    r = REACH.setdefault((e["impl"], e["fx"]), [0] * 5)
+                    for i in range(5):
+                        r[i] += e["calls"][i]
+                elif k == "cov":
+                    TOP[e["fx"]] = e["top"]
+                if k == "enc" and len(ctx.samples) < 3 and e["lv"] == 4:
+                    ctx.sample(dict(variant=j.variant, settings={x: cur[x] for x in cur if x != "k"} if cur else None, event=e))
+                if k == "kc" and len(ctx.samples) < 6 and e["mode"] == "situ" and e["impl"].startswith("silk_NSQ"):
+                    ctx.sample(dict(variant=j.variant, event=e))
+    return nh
+
+
+OBS = dict(kernels={}, insitu={}, pvq_worst_quality_loss_ppm=0, pvq_cases=0, pvq_vectors_differ=0,
+           float_pcm_max_diff_clean_16bit_units=0, float_pcm_max_diff_lossy_16bit_units=0)
+REACH = {}
+TOP = {}
+
+
+def judge_job(ctx, j, confirm=True):
+    """judge everything one harness run recorded; report violations / known findings"""
+    if j.rc != 0:
+        last = ""
+        try:
+            with open(j.out) as f:
+                for ln in f:
+                    if ln.startswith('{"k":"new"'):
+                        last = ln.strip()
+        except OSError:
+            pass
+        hid = json.loads(last)["id"] if last else None
+        with LOCK:
+          ctx.violation("hx_arch %s/%s aborted rc=%d (sanitizer / assertion incl. the library's own OPUS_CHECK_ASM self-checks / hang)%s: %s" % (
+            j.variant, j.name, j.rc, " in history %s" % last[:300] if last else "", j.err[-1500:]), replay_text=replay_text_of(j, hist_id=hid))
+        return 0
+    with LOCK:
+        nh = scan(ctx, j)
+    bad_hist = 0
+    for path, what in ((j.out, "C15 %s %s" % (j.variant, j.name)), (j.kout, "C15 %s %s kernels" % (j.variant, j.name))):
+        if not os.path.exists(path):
+            continue
+        guard = 0
+        while True:
+            guard += 1
+            acc, rej, ev = judge_file(ctx, j, path, what)
+            if acc:
+                break
+            if ev is None or guard > 40:
+                raise vf.Infra("%s: rejected without an event (line %s)" % (what, rej))
+            if ev.get("k") == "cov":
+                # coverage is judged over all runs together (see coverage()); a single chunk may miss a kernel
+                drop_line(path, rej)
+                continue
+            en = match_known(ev)
+            if en is not None:
+                with LOCK:
+                    ctx.kf_count[en.get("id", "?")] = ctx.kf_count.get(en.get("id", "?"), 0) + 1
+                    ctx.kf_example.setdefault(en.get("id", "?"), (en, ev))
+                drop_line(path, rej)
+                continue
+            hid = hist_of(path, rej) if ev.get("k") in ("enc", "dec") else None
+            txt = replay_text_of(j, hist_id=hid)
+            what2 = describe(ev, j)
+            if confirm and not repeatable(ctx, txt, ev):
+                raise vf.Infra("rejection not repeatable: " + what2[:600])
+            with LOCK:
+                ctx.violation(what2, replay_text=txt + "# rejected event: " + json.dumps(ev)[:2000])
+            bad_hist += 1
+            break
+    with LOCK:
+        ctx.traces += max(0, nh - bad_hist) if j.kind == "twins" else (0 if bad_hist else 1)
+    return nh
+
+
+def describe(ev, j):
+    k = ev.get("k")
+    if k == "kc":
+        return "kernel %s (%s build, %s arguments, shape %s) does not match the portable C kernel %s_c: %s" % (
+            ev["impl"], "fixed-point" if ev["fx"] else "float", "synthetic" if ev["mode"] == "syn" else "codec-passed", ev["shape"], ev["kern"],
+            json.dumps({x: ev[x] for x in ev if x not in ("k", "kern", "impl", "fx", "mode", "shape")}))
+    if k == "is":
+        return "kernel %s: %d of %d in-situ calls gave a result different from the portable C kernel (%s)" % (ev["impl"], ev["neq"], ev["cmp"], json.dumps(ev))
+    if k == "enc":
+        return "%s: encoder twin at arch level %d produced different packets / final ranges than a twin at a level from which it may differ only in integer kernels: %s" % (j.variant, ev["lv"], json.dumps(ev))
+    if k == "dec":
+        return "%s: decoder twin at arch level %d differs (final range / PCM) from a twin at another level for the same packets: %s" % (j.variant, ev["lv"], json.dumps(ev))
+    return "%s: event rejected by ArchTrace: %s" % (j.variant, json.dumps(ev)[:800])
+
+
+_rep = [0]
+
+
+def repeatable(ctx, txt, ev):
+    """R4: run the recorded case once more; TLC must reject it again"""
+    _rep[0] += 1
+    j = job_from_replay(ctx, txt, "confirm%d" % _rep[0])
+    run_job(ctx, j)
+    if j.rc != 0:
+        return True
+    for path in (j.out, j.kout):
+        acc, rej, e2 = judge_file(ctx, j, path, "C15 confirm")
+        while not acc and e2 is not None and e2.get("k") == "cov":
+            drop_line(path, rej)
+            acc, rej, e2 = judge_file(ctx, j, path, "C15 confirm")
+        if not acc:
+            return True
+    return False
+
+
+_exe = {}
+
+
+def exe_for(variant):
+    if variant not in _exe:
+        var = vf.build_variant(variant)
+        _exe[variant] = build_arch(var) + (var,)
+    return _exe[variant][0]
+
+
+def job_from_replay(ctx, txt, name):
+    first = txt.split("\n", 1)[0].split()
+    if first and first[0] == "K" and len(first) >= 4:
+        return Job(first[1], exe_for(first[1]), "kern", name, args=[first[2], first[3]])
+    if first and first[0] == "V" and len(first) >= 2:
+        lines = [ln for ln in txt.split("\n")[1:] if ln.startswith("H ")]
+        return Job(first[1], exe_for(first[1]), "twins", name, lines=lines)
+    raise vf.Infra("replay file must start with 'V <variant>' (histories follow) or 'K <variant> <seed> <n>'")
+
+
+def coverage(ctx):
+    """vacuity guard, judged by TLC (ArchTrace!CovOK) over the summed reach counters of all whole-codec runs"""
+    for fx, tag in ((1, "hkfixo"), (0, "hko")):
+        if fx not in TOP:
+            continue
+        p = ctx.path("coverage_%d.ndjson" % fx)
+        with open(p, "w") as f:
+            f.write(open(ctx.tab[tag]).read())
+            for (impl, x), calls in sorted(REACH.items()):
+                if x == fx:
+                    f.write(json.dumps(dict(k="reach", impl=impl, fx=fx, calls=calls)) + "\n")
+            f.write(json.dumps(dict(k="cov", fx=fx, top=TOP[fx])) + "\n")
+        acc, rej, r = vf.validate_seq(ctx, "ArchTrace", "ArchTrace.cfg", p, "C15 coverage fx=%d" % fx)
+        if not acc:
+            raise vf.Infra("vacuous run: an implementation selected by a dispatch table at a level <= %d was never reached by the whole-codec load "
+                           "(%s build): tables %s reach %s" % (TOP[fx], "fixed" if fx else "float", open(ctx.tab[tag]).read()[:1500],
+                                                               {k[0]: v for k, v in REACH.items() if k[1] == fx}))
+        ctx.notes.setdefault("reach_calls_per_level", {})["fixed" if fx else "float"] = {k[0]: v for k, v in sorted(REACH.items()) if k[1] == fx}
+
+
+def model_runs(ctx, quick):
+    """the design theorems on the tables of the library under test, and the witnesses (vacuity guards)"""
+    cfg = "ArchTwins_mc_quick.cfg" if quick else "ArchTwins_mc_thorough.cfg"
+    jobs = [("fixed tables", cfg, ctx.tab["hkfixo"], None), ("float tables", cfg, ctx.tab["hko"], None),
+            ("witness deviant silk_NSQ_sse4_1, float tables", "ArchTwins_mc_w_nsq.cfg", ctx.tab["hko"], "TwinEquiv"),
+            ("witness deviant silk_NSQ_del_dec_avx2, fixed tables", "ArchTwins_mc_w_avx2.cfg", ctx.tab["hkfixo"], "TwinEquiv")]
+
+    def one(jb):
+        what, c, tab, expect = jb
+        return jb, vf.tlc("ArchTwins_mc", c, workers=4, env={"TABLES": tab}, timeout=1500, heap="6g", tag="ArchTwins_" + what.replace(" ", "_").replace(",", ""))
+    for (what, c, tab, expect), r in vf.parallel(one, jobs, nproc=4):
+        if r.error:
+            raise vf.Infra("ArchTwins_mc %s: %s" % (what, r.error))
+        ctx.add_tlc(r, "mc ArchTwins_mc/%s (%s)" % (c, what))
+        vf.log("[mc] %-58s distinct=%d %s (%.1fs)" % (what, r.distinct, "OK" if r.ok else "VIOLATED " + str(r.violation), r.wall))
+        if expect is None and r.violation == "TablesKnown":
+            ctx.spec_drift("ArchTwins", "a dispatch table of the library names a kernel the spec does not classify: " + open(tab).read()[:1200])
+        elif expect is None and r.violation:
+            raise vf.Infra("ArchTwins theorem %s violated on %s:\n%s" % (r.violation, what, r.state_dump[:1500]))
+        elif expect is not None and r.violation != expect:
+            top = 4
+            rows = [json.loads(x) for x in open(tab)]
+            # the witness needs the deviant implementation to be in the tables at all
+            name = "silk_NSQ_sse4_1" if "nsq" in c else "silk_NSQ_del_dec_avx2"
+            if any(name in rw["impl"] for rw in rows):
+                raise vf.Infra("vacuity guard: %s should violate %s but TLC reported %s" % (what, expect, r.violation))
+
+
+def run(ctx):
+    quick = ctx.tier == "quick"
+    ctx.kf_count, ctx.kf_example = {}, {}
+    ctx.rule = ("ArchTwins_mc: TLC checks twin equivalence for every history of the settings grid x run patterns and every pair of arch levels on the dispatch "
+                "tables read from the built library (fixed-point and float), with witnesses that a deviant integer kernel breaks it. Implementation: "
+                "TLC-enumerated histories (stratified seeded sample + directed ones) are replayed with one encoder and two decoders per arch level 0..4 "
+                "(OPUS_VERIF_ARCH_CAP); every run of frames is judged by ArchTrace (packets+final ranges, decoder final ranges, PCM); every SIMD kernel "
+                "is wrapped at link time and compared in situ with its portable C kernel on the codec's own arguments, and on synthetic shapes. "
+                "non-trivial = distinct replayed histories on a CPU with at least SSE4.1 + distinct (implementation, argument shape) kernel cases")
+    ctx.assumptions = ["TLC 1.8.0 and the CommunityModules Json reader are trusted",
+                       "x86-64 builds presume SSE and SSE2: in the float build xcorr_kernel/celt_inner_prod/dual_inner_prod/comb_filter_const (SSE) and op_pvq_search (SSE2) run at "
+                       "every arch level; they are compared with the portable C kernels at kernel level only (whole-codec twins cannot tell them apart)",
+                       "arch levels above what this CPU supports cannot be exercised (top level recorded in the evidence)",
+                       "integer kernels with structured arguments (NSQ, delayed-decision NSQ, LTP codebook search, VAD, Burg) are compared on the arguments the codec passes "
+                       "during the replayed histories, not on synthetic ones",
+                       "float tolerance: |SIMD - C| <= (2n+4) * 2^-24 * sum|terms| (worst-case reassociation bound; x8 for the in-place comb filter); PVQ search: K pulses and energy exact, "
+                       "match with the input at most 0.1 lower than the portable vector's (calibrated, R3: worst observed 0.022); no tolerance is asserted on float-build PCM between levels that differ in float kernels "
+                       "(the measured maximum is recorded)"]
+    if ctx.replay:
+        return replay(ctx)
+    rng = random.Random(ctx.seed)
+    # 1. builds and dispatch tables
+    variants = ["hkfixo", "hko"] + ([] if quick else ["hkfix", "hk", "hkfixca", "hkca"])
+    for v in variants:
+        exe_for(v)
+    ctx.tab = {v: tables_of(ctx, exe_for(v), v) for v in ("hkfixo", "hko")}
+    for v in variants:
+        info = _exe[v][1]
+        if info["unknown_simd"] or info["unknown_tables"]:
+            ctx.spec_drift("ArchTwins", "%s: kernels/tables in libopus.a that the harness does not bind: %s %s" % (v, info["unknown_simd"], info["unknown_tables"]))
+    ctx.notes["kernels_bound"] = {v: _exe[v][1]["simd"] for v in ("hkfixo", "hko")}
+    ctx.notes["dispatch_tables"] = {v: [json.loads(x) for x in open(ctx.tab[v])] for v in ("hkfixo", "hko")}
+    # 2. behaviours
+    hs = gen_histories(ctx, "ArchTwins_gen_quick.cfg" if quick else "ArchTwins_gen_thorough.cfg")
+    ctx.notes["histories_enumerated"] = len(hs)
+    nsample = 320 if quick else 4800
+    picked = sample_histories(hs, nsample, rng)
+    lines = [history_line(i + 1, h, rng) for i, h in enumerate(picked)]
+    lines += directed_lines(len(lines) + 1)
+    ctx.notes["histories_replayed_per_build"] = len(lines)
+    jobs = []
+    nchunk = 4 if quick else 10
+    per = (len(lines) + nchunk - 1) // nchunk
+    for v in ("hkfixo", "hko"):
+        for c in range(nchunk):
+            part = lines[c * per:(c + 1) * per]
+            if part:
+                jobs.append(Job(v, exe_for(v), "twins", "tw%02d" % c, lines=part))
+        nk = 2 if quick else 6
+        for c in range(nk):
+            jobs.append(Job(v, exe_for(v), "kern", "kern%02d" % c, args=[ctx.seed + 17 * c + (0 if v == "hko" else 5), 1500 if quick else 8000]))
+    if not quick:
+        # sanitizer builds: synthetic shapes on exact-size heap blocks (out-of-contract accesses of a SIMD kernel are ASan reports) and a smaller whole-codec load;
+        # OPUS_CHECK_ASM builds: the library's own in-kernel self-checks (assertions) under the whole-codec load
+        sub = lines[:300] + lines[-14:]
+        for v in ("hkfix", "hk"):
+            for c in range(4):
+                jobs.append(Job(v, exe_for(v), "twins", "tw%02d" % c, lines=sub[c::4]))
+                jobs.append(Job(v, exe_for(v), "kern", "kern%02d" % c, args=[ctx.seed + 1000 + c, 4000]))
+        sub = lines[:1200] + lines[-14:]
+        for v in ("hkfixca", "hkca"):
+            for c in range(4):
+                jobs.append(Job(v, exe_for(v), "twins", "tw%02d" % c, lines=sub[c::4]))
+    # 3. the design (in parallel with the executions)
+    from concurrent.futures import ThreadPoolExecutor
+    with ThreadPoolExecutor(max_workers=2) as ex:
+        fm = ex.submit(model_runs, ctx, quick)
+        done = vf.parallel(lambda j: run_job(ctx, j), jobs, nproc=8)
+        fm.result()
+    ctx.exhaustive = True
+    ctx.notes["exhaustive_scope"] = ("model side: every history of the grid x every pair of levels on the library's real dispatch tables; implementation side: sampled histories, "
+                                     "all levels the CPU has")
+    # 4. judgement (TLC runs in parallel; the shared counters are updated under a lock)
+    res = vf.parallel(lambda j: judge_job(ctx, j), done, nproc=8)
+    ctx.notes["histories_run"] = sum(res)
+    for fid, n in ctx.kf_count.items():
+        en, ev = ctx.kf_example[fid]
+        ctx.known_finding("%s [%d events, e.g. %s]" % (en["what"], n, json.dumps(ev)[:400]))
+    if not ctx.violations:
+        coverage(ctx)
+    ctx.notes["cpu_top_level"] = TOP
+    ctx.notes["observed"] = OBS
+    ctx.notes["tolerances"] = dict(FltBound="2n+4", CombInPlaceFactor=8, PvqTol_ppm=100000)
+
+
+def replay(ctx):
+    with open(ctx.replay) as f:
+        txt = f.read()
+    j = job_from_replay(ctx, txt, "replay")
+    ctx.tab = {}
+    run_job(ctx, j)
+    n = judge_job(ctx, j, confirm=False)
+    for fid, k in ctx.kf_count.items():
+        ctx.known_finding(ctx.kf_example[fid][0]["what"])
+    ctx.nontrivial_count = max(2, len(ctx.nontrivial))
+    ctx.states = max(ctx.states, 1)
+    ctx.transitions = max(ctx.transitions, 1)
+
+
+META = dict(
+    engine="ArchTwins+ArchTrace",
+    technique=("TLA+ model of codec objects with an unobservable arch component over the dispatch tables read from the built library; TLC exhaustive twin-equivalence over "
+               "TLC-enumerated histories x all pairs of levels; histories replayed through real encoders/decoders at arch levels 0..4 (hook H1) and judged by TLC; "
+               "every SIMD kernel wrapped at link time and compared with its portable C kernel in situ and on synthetic shapes, judged by TLC"),
+    level_text=("TLC proves on ArchTwins, for the run-time dispatch tables extracted from the library under test (fixed-point and float builds), that twins at arch levels whose "
+                "table rows differ only in integer kernels are indistinguishable for every history of the settings grid (application x Fs x channels x complexity x bitrate x FEC x "
+                "duration x loss/FEC/switch patterns) and every pair of levels, and that a deviant integer kernel breaks this (witness runs). The model is bound to libopus by "
+                "replaying TLC-enumerated histories with twins at levels 0..4: in the fixed-point build packets, final ranges and decoded PCM must be identical at every level; in the "
+                "float build the same holds between levels that differ only in integer kernels (0..3 here), and decoder final ranges are identical at every level. Kernel level: "
+                "each SIMD kernel symbol of libopus.a is intercepted at link time; on every call the codec makes, and on seeded synthetic shapes, the SIMD result and the portable C "
+                "result are recorded and TLC demands bit-identity for integer kernels and the reassociation bound for float kernels."),
+    level_note=("Trusted: TLC, the Json module, the harness's difference measurement for float kernels. NOT covered: kernel equivalence over all argument shapes (only the shapes "
+                "the replayed histories and the synthetic driver produce); NSQ / delayed-decision NSQ / LTP search / VAD / Burg only on codec-passed arguments; float kernels only up to the "
+                "stated bounds; the PVQ search kernel uses reciprocal-square-root estimates, so its pulse vector may legitimately differ and only K pulses, energy and a calibrated "
+                "quality margin are demanded; in x86-64 float builds SSE/SSE2 kernels are presumed at compile time, so arch levels 0-2 are the same code and a deviant AVX2 integer kernel "
+                "is visible to whole-codec twins only in the fixed-point build (TLC shows this on the model); levels above the host CPU's are not exercised; NaN/Inf inputs to float "
+                "kernels are not driven; ARM/MIPS dispatch is out of scope."),
+)
